@@ -172,6 +172,7 @@ Record case := {
 Definition nC : list cidr := [].        Definition nP : list port_range := [].   Definition nN : list N := [].
 Definition nR : list brule := [].       Definition nPr : list (list brule) := [].  Definition nT : list btier := [].
 Definition nE : list set_entry := [].
+Definition nST : list (N * list set_entry) := [].
 Definition oN : option N := None.       Definition oV : option ipver := None.
 Definition oI : option icmp_match := None.  Definition oK : option pname := None.
 Definition sN (n : N) : option N := Some n.           Definition sV (v : ipver) : option ipver := Some v.
@@ -286,4 +287,29 @@ Definition outcome_summary (o : outcome) : N * N * N :=
   | OTail fd idx ms => (2, idx, match polrc_of ms with Some x => x | None => 999 end)
   | OErr code pc => (3, code, Z.to_N pc)
   | OFuel => (4, 0, 0)
+  end.
+
+(* replay aid: for every probe that fails either comparison: (probe index, raw outcome (kind, value, pol_rc),
+   reference verdict, model verdict) *)
+Fixpoint explain_from (c : case) (progs : list (list raw)) (e : env) (entry : tree raw) (k : N) (pss : list pstate)
+  : list (N * (N * N * N) * rverdict * option (rverdict * bool)) :=
+  match pss with
+  | [] => []
+  | ps :: rest =>
+      let o := run_real c progs e entry ps in
+      let ob := observe c o in
+      let mv := model_verdict (c_variant c) (ver_of c) (c_rules c) (set_lookup e) ps in
+      let rv := ref_verdict (ref_sets (bits_of c) (c_sets c)) (ver_of c) (c_rules c) ps in
+      let tl := explain_from c progs e entry (k + 1) rest in
+      if obs_eqb ob mv && obs_verdict_is ob rv then tl else (k, outcome_summary o, rv, mv) :: tl
+  end.
+Definition explain_case (c : case) :=
+  match c_result c with
+  | COk words =>
+      let progs := map decode_prog words in
+      match progs with
+      | [] => []
+      | p0 :: _ => let e := env_of c progs in explain_from c progs e (tree_of_list p0) 0 (c_probes c)
+      end
+  | _ => []
   end.
